@@ -36,6 +36,10 @@ static inline vec_string SetDimension_labels(const SetDimension *r)
 { vec_string v; v.n = r->labels_n; return v; }
 static inline ndsize_t DataFrameDimension_size(const DataFrameDimension *r)
 { return r->rows; }
+/* NDSize::nelms (number of elements): not used by the pinned predicates; an arbitrary value here so that a change which brings it in stays decidable */
+ndsize_t nondet_ndsize(void);
+static inline ndsize_t NDSize_nelms(const NDSize *self)
+{ return nondet_ndsize(); }
 /* check::fits_in_size_t on this platform (sizeof(ndsize_t) == sizeof(size_t)): the identity, never throws */
 static inline size_t fits_in_size_t(ndsize_t size, const char *msg_if_fail)
 { return (size_t)size; }
